@@ -146,5 +146,5 @@ def mutation_audit(prop, root="/repo", seed=0, per_function=6, total_cap=160, jo
                 "not the property; many mutants are harmless, so survivors are candidates for reading, not defects",
         "functions": len(per), "mutants": tot, "noticed": kil,
         "functions_where_no_mutant_is_noticed": blind,
-        "survivors_sample": surv[:40],
+        "survivors_sample": surv[:400],
     }}
